@@ -1578,10 +1578,7 @@ func runC17Round5(c *Ctx) {
 			n++
 			stored := loadedIf.Block().Succs[1] // loaded == false
 			via := map[ssa.Instruction]bool{}
-			for _, s := range calls(fn, func(x ssa.CallInstruction) bool {
-				f := calleeOf(x)
-				return f != nil && f.Name() == "start"
-			}) {
+			for _, s := range calls(fn, func(x ssa.CallInstruction) bool { return c17IsShardStart(p, x) }) {
 				via[s.(ssa.Instruction)] = true
 			}
 			ok := len(via) > 0
@@ -1615,7 +1612,7 @@ func runC17Round5(c *Ctx) {
 	c.Rule("R10", "PROV", "incoming data is appended behind what is pending: in the add methods of the pending batches every MoveAndAppendTo moves FROM the incoming payload INTO the batch's own container – never the other way round, which would put older pending items behind newer ones (the timer restart after a size-triggered send relies on arrival order)", 3)
 	n = 0
 	for _, fn := range p.AllSrcFuncs(pk) {
-		if fn.Parent() != nil || fn.Name() != "add" || fn.Signature.Recv() == nil || len(fn.Params) != 2 {
+		if fn.Parent() != nil || fn.Signature.Recv() == nil || len(fn.Params) != 2 || funcObj(fn) == nil || batchMethodKind(funcObj(fn)) != "add" {
 			continue
 		}
 		for _, ci := range callsNamed(fn, func(f *types.Func) bool { return f.Name() == "MoveAndAppendTo" }) {
@@ -2136,7 +2133,7 @@ func runC17LimitRecheck(c *Ctx) {
 	n := 0
 	// the refusals: error returns on the limit-reached side of a comparison of the shard counter with the configured
 	// limit (found by field type / configuration tag and in every spelling of the comparison, see c17r4_A8.go)
-	anc := findC17Anchors(p)
+	anc := c17AnchorsOf(p)
 	funcs := p.AllSrcFuncs(pk)
 	for _, t := range c17LimitTests(anc, funcs) {
 		fn := t.Fn
@@ -2732,13 +2729,7 @@ func runC17Batch3(c *Ctx) {
 			continue
 		}
 		// a non-blocking select (or receive) on the shutdown channel with an error return on that side, in a function that forwards to a consume
-		forwards := len(calls(fn, func(ci ssa.CallInstruction) bool {
-			if ci.Common().IsInvoke() {
-				return ci.Common().Method.Name() == "consume"
-			}
-			f := calleeOf(ci)
-			return f != nil && f.Name() == "consume"
-		})) > 0
+		forwards := len(calls(fn, func(ci ssa.CallInstruction) bool { return c17IsBatcherConsume(ci, fn) })) > 0
 		if !forwards {
 			continue
 		}
@@ -2753,8 +2744,9 @@ func runC17Batch3(c *Ctx) {
 					continue
 				}
 				isShut := false
+				anc := c17AnchorsOf(p)
 				for v := range backSlice(st.Chan) {
-					if fa, isFA := v.(*ssa.FieldAddr); isFA && strings.Contains(strings.ToLower(derefStruct(fa.X.Type()).Field(fa.Field).Name()), "shutdown") {
+					if fa, isFA := v.(*ssa.FieldAddr); isFA && anc.procT != nil && namedOf(fa.X.Type()) == anc.procT && fa.Field == anc.pShutdown {
 						isShut = true
 					}
 				}
@@ -2783,7 +2775,7 @@ func runC17Batch3(c *Ctx) {
 		if fn.Parent() != nil {
 			continue
 		}
-		starts := calls(fn, func(x ssa.CallInstruction) bool { f := calleeOf(x); return f != nil && f.Name() == "start" })
+		starts := calls(fn, func(x ssa.CallInstruction) bool { return c17IsShardStart(p, x) })
 		for _, ci := range callsNamed(fn, func(f *types.Func) bool {
 			return f.FullName() == "(*sync.Map).Store" || f.FullName() == "(*sync.Map).LoadOrStore"
 		}) {
